@@ -520,3 +520,195 @@ mod tests {
         );
     }
 }
+
+// ===== verification hooks =====
+//
+// A thin public façade over `State` for the out-of-tree verification harness: every method of
+// `State` with plain arguments, every result rendered with `{:?}`. Nothing in the library uses
+// it.
+#[cfg(feature = "verif-hooks")]
+pub use self::verif_facade::{VerifError, VerifState};
+
+#[cfg(feature = "verif-hooks")]
+mod verif_facade {
+    use super::*;
+    use http::{HeaderMap, StatusCode};
+
+    /// A `proto::Error` given by plain values.
+    #[derive(Debug, Clone)]
+    pub enum VerifError {
+        Reset {
+            stream_id: u32,
+            reason: u32,
+            initiator: Initiator,
+        },
+        GoAway {
+            debug: Vec<u8>,
+            reason: u32,
+            initiator: Initiator,
+        },
+        Io {
+            kind: io::ErrorKind,
+            msg: Option<String>,
+        },
+    }
+
+    impl VerifError {
+        fn build(&self) -> Error {
+            match *self {
+                VerifError::Reset {
+                    stream_id,
+                    reason,
+                    initiator,
+                } => Error::Reset(StreamId::from(stream_id), Reason::from(reason), initiator),
+                VerifError::GoAway {
+                    ref debug,
+                    reason,
+                    initiator,
+                } => Error::GoAway(debug.clone().into(), Reason::from(reason), initiator),
+                VerifError::Io { kind, ref msg } => Error::Io(kind, msg.clone()),
+            }
+        }
+    }
+
+    /// `State` with every method callable from outside the crate.
+    #[derive(Debug, Clone, Default)]
+    pub struct VerifState {
+        state: State,
+    }
+
+    impl VerifState {
+        pub fn new() -> VerifState {
+            VerifState::default()
+        }
+
+        /// The `Debug` form of the wrapped state.
+        pub fn state(&self) -> String {
+            format!("{:?}", self.state)
+        }
+
+        pub fn send_open(&mut self, eos: bool) -> String {
+            format!("{:?}", self.state.send_open(eos))
+        }
+
+        /// `recv_open` with a response HEADERS frame: status 100 when `informational`, else 200.
+        pub fn recv_open(&mut self, eos: bool, informational: bool) -> String {
+            let status = if informational {
+                StatusCode::CONTINUE
+            } else {
+                StatusCode::OK
+            };
+            let mut frame = frame::Headers::new(
+                StreamId::from(1),
+                frame::Pseudo::response(status),
+                HeaderMap::new(),
+            );
+            if eos {
+                frame.set_end_stream();
+            }
+            format!("{:?}", self.state.recv_open(&frame))
+        }
+
+        pub fn reserve_remote(&mut self) -> String {
+            format!("{:?}", self.state.reserve_remote())
+        }
+
+        pub fn reserve_local(&mut self) -> String {
+            format!("{:?}", self.state.reserve_local())
+        }
+
+        pub fn recv_close(&mut self) -> String {
+            format!("{:?}", self.state.recv_close())
+        }
+
+        pub fn recv_reset(&mut self, stream_id: u32, reason: u32, queued: bool) {
+            let frame = frame::Reset::new(StreamId::from(stream_id), Reason::from(reason));
+            self.state.recv_reset(frame, queued)
+        }
+
+        pub fn handle_error(&mut self, err: &VerifError) {
+            self.state.handle_error(&err.build())
+        }
+
+        pub fn recv_eof(&mut self) {
+            self.state.recv_eof()
+        }
+
+        /// Panics in the states where `State::send_close` panics.
+        pub fn send_close(&mut self) {
+            self.state.send_close()
+        }
+
+        pub fn set_reset(&mut self, stream_id: u32, reason: u32, initiator: Initiator) {
+            self.state
+                .set_reset(StreamId::from(stream_id), Reason::from(reason), initiator)
+        }
+
+        /// Panics on a closed state when debug assertions are enabled.
+        pub fn set_scheduled_reset(&mut self, reason: u32) {
+            self.state.set_scheduled_reset(Reason::from(reason))
+        }
+
+        pub fn get_scheduled_reset(&self) -> String {
+            format!("{:?}", self.state.get_scheduled_reset())
+        }
+
+        pub fn is_scheduled_reset(&self) -> bool {
+            self.state.is_scheduled_reset()
+        }
+
+        pub fn is_local_error(&self) -> bool {
+            self.state.is_local_error()
+        }
+
+        pub fn is_remote_reset(&self) -> bool {
+            self.state.is_remote_reset()
+        }
+
+        pub fn is_reset(&self) -> bool {
+            self.state.is_reset()
+        }
+
+        pub fn is_send_streaming(&self) -> bool {
+            self.state.is_send_streaming()
+        }
+
+        pub fn is_recv_headers(&self) -> bool {
+            self.state.is_recv_headers()
+        }
+
+        pub fn is_recv_streaming(&self) -> bool {
+            self.state.is_recv_streaming()
+        }
+
+        pub fn is_recv_end_stream(&self) -> bool {
+            self.state.is_recv_end_stream()
+        }
+
+        pub fn is_closed(&self) -> bool {
+            self.state.is_closed()
+        }
+
+        pub fn is_send_closed(&self) -> bool {
+            self.state.is_send_closed()
+        }
+
+        pub fn is_idle(&self) -> bool {
+            self.state.is_idle()
+        }
+
+        pub fn ensure_recv_open(&self) -> String {
+            format!("{:?}", self.state.ensure_recv_open())
+        }
+
+        /// `ensure_reason(PollReset::Streaming)` when `streaming`, else `PollReset::AwaitingHeaders`.
+        pub fn ensure_reason(&self, streaming: bool) -> String {
+            let mode = if streaming {
+                PollReset::Streaming
+            } else {
+                PollReset::AwaitingHeaders
+            };
+            format!("{:?}", self.state.ensure_reason(mode))
+        }
+    }
+}
